@@ -36,7 +36,7 @@ RULE = (
     "REBOOTING while requests are in flight) or on two clients (different v3 users on one "
     "device; the same user on two devices with different engine ids); one operation cancelled "
     "by its caller at a chosen point while the others are in flight; a slow GET left "
-    "unanswered while an 80-request walk goes by. Every request is parked at the sender seam and a scheduler answers "
+    "unanswered while a 170-request walk goes by. Every request is parked at the sender seam and a scheduler answers "
     "pending requests in a chosen order: all orders are enumerated depth-first for sets whose "
     "schedule tree has <= MAX_ENUM leaves (quick 400, thorough 3000), otherwise sampled "
     "uniformly at each decision. Oracle: each operation's result == its solo result on an "
@@ -69,8 +69,8 @@ DB[BASE + (9, 1, 0)] = ("int", 1)
 DB[BASE + (9, 2, 0)] = ("int", 2)
 for _i in range(6):
     DB[BASE + (99, _i, 0)] = ("int", 0)  # private slots for SETs
-for _i in range(1, 81):
-    DB[BASE + (55, 1, _i)] = ("int", _i)  # a long column: 80 instances
+for _i in range(1, 171):
+    DB[BASE + (55, 1, _i)] = ("int", _i)  # a long column: 170 instances
 
 OPKINDS = ("get", "multiget", "getnext", "set", "walk", "bulkwalk", "table", "walk9", "bulkget", "multiwalk2")
 
@@ -409,7 +409,7 @@ def run(R):
     ]
     k = 0
     # the small deterministic blocks first: a time cap must never starve them
-    # a slow operation stays unanswered while a long walk (80 requests) goes by
+    # a slow operation stays unanswered while a long walk (170 requests) goes by
     for mode in ("v2c", "v3-primed"):
         for clock in ("stepping", "frozen"):
             k += 1
